@@ -51,6 +51,7 @@ type Block struct {
 	Func   string // "Recv.M" or "F"
 	Name   string // name of the generated definition
 	Anchor string // source text of the condition of the `if` whose body is extracted
+	Cond   bool   // extract the CONDITION itself (a boolean function of its free variables) instead of the body
 }
 
 type absBase struct {
@@ -83,6 +84,52 @@ type absCtx struct {
 	scalars  map[string]bool              // names of the scalar parameters
 	ptrSlices map[string]bool             // parameters of type *[]byte, threaded as the slice they point to
 	noJoin    map[ast.Stmt]bool           // switch statements being translated as a join (recursion guard)
+	foreign   []absForeign                // state objects of other translated types reached through a field (self.p): threaded
+}
+
+// a protocol object reached through a field of an abstract object (self.p) whose type has declared State in its own module:
+// its state fields are parameters and trailing results of the definition, and calls of its translated methods are real calls
+type absForeign struct {
+	base, path string
+	fields     []string
+	tys        []string
+}
+
+func (f absForeign) vars() []string {
+	var out []string
+	for _, fl := range f.fields {
+		out = append(out, lv(f.base+"_"+f.path+"_"+fl))
+	}
+	return out
+}
+
+// foreignCall: ce is  base.path.M(args)  with M a translated, state-threaded method of another type
+func (tr *translator) foreignCall(ce *ast.CallExpr) (app string, nres int, f *absForeign, ok bool) {
+	if tr.abs == nil {
+		return "", 0, nil, false
+	}
+	name, recvX, threaded, known := tr.calleeName(ce.Fun)
+	if !known || !threaded || recvX == nil {
+		return "", 0, nil, false
+	}
+	b, p, isPath := tr.absPath(recvX)
+	if !isPath || p == "" {
+		return "", 0, nil, false
+	}
+	for i := range tr.abs.foreign {
+		if tr.abs.foreign[i].base == b && tr.abs.foreign[i].path == p {
+			f = &tr.abs.foreign[i]
+		}
+	}
+	if f == nil {
+		return "", 0, nil, false
+	}
+	args := append([]string{}, f.vars()...)
+	for _, a := range ce.Args {
+		args = append(args, tr.expr(a))
+	}
+	sig := tr.typeOf(ce.Fun).(*types.Signature)
+	return "(" + name + " " + strings.Join(args, " ") + ")", sig.Results().Len(), f, true
 }
 
 func (a *absCtx) outVar(base, path string) (string, bool) {
@@ -392,6 +439,10 @@ func (tr *translator) absTuple(vals []string) string {
 	if a.hasEffDecl {
 		all = append(all, "eff_")
 	}
+	all = append(all, tr.statePat()...)
+	for _, f := range a.foreign {
+		all = append(all, f.vars()...)
+	}
 	if len(all) == 0 {
 		return "tt"
 	}
@@ -473,6 +524,14 @@ func (tr *translator) assignedIn(n ast.Node, from token.Pos) (vars []string, eff
 			}
 			fail(e, "assignment target %s inside a branch", srcOf(e))
 		case *ast.SelectorExpr:
+			if id, ok := e.X.(*ast.Ident); ok && tr.recvState != nil && id.Name == tr.recvName {
+				v := tr.lhs(e)
+				if !seen[v] {
+					seen[v] = true
+					vars = append(vars, v)
+				}
+				return
+			}
 			if b, p, ok := tr.absPath(e); ok && p != "" {
 				if v, ok := tr.abs.outVar(b, p); ok && !seen[v] {
 					seen[v] = true
@@ -568,6 +627,20 @@ func (tr *translator) absStmt(list []ast.Stmt, k func() string) (string, bool) {
 			}
 			return pre + tr.blockRet("Out_return"), true
 		}
+		if len(s.Results) == 1 && !a.block {
+			if ce, isc := s.Results[0].(*ast.CallExpr); isc {
+				if app, n, f, ok := tr.foreignCall(ce); ok {
+					if n != len(tr.resultTys) {
+						fail(s, "result arity mismatch in tail call")
+					}
+					var rs []string
+					for i := 0; i < n; i++ {
+						rs = append(rs, fmt.Sprintf("r%d_", i))
+					}
+					return "let '(" + strings.Join(append(append([]string{}, rs...), f.vars()...), ", ") + ") := " + app + " in\n" + tr.retTuple(rs), true
+				}
+			}
+		}
 		if names, ok := a.retOracles[s]; ok {
 			return tr.effect(s.Results[0].(*ast.CallExpr)) + tr.retTuple(names), true
 		}
@@ -595,6 +668,14 @@ func (tr *translator) absStmt(list []ast.Stmt, k func() string) (string, bool) {
 			if id, ok := ce.Fun.(*ast.Ident); ok && id.Name == "panic" {
 				return "", false
 			}
+			if app, n, f, ok := tr.foreignCall(ce); ok {
+				pat := make([]string, n)
+				for i := range pat {
+					pat[i] = "_"
+				}
+				pat = append(pat, f.vars()...)
+				return "let '(" + strings.Join(pat, ", ") + ") := " + app + " in\n" + rest(), true
+			}
 			if w, ok := tr.inPlaceCall(ce); ok {
 				return w(rest), true
 			}
@@ -613,6 +694,21 @@ func (tr *translator) absStmt(list []ast.Stmt, k func() string) (string, bool) {
 			}
 		}
 	case *ast.AssignStmt:
+		if len(s.Rhs) == 1 && (s.Tok == token.DEFINE || s.Tok == token.ASSIGN) {
+			if ce, isc := s.Rhs[0].(*ast.CallExpr); isc {
+				if app, n, f, ok := tr.foreignCall(ce); ok {
+					if n != len(s.Lhs) {
+						fail(s, "assignment arity")
+					}
+					var pat []string
+					for _, l := range s.Lhs {
+						pat = append(pat, tr.lhs(l))
+					}
+					pat = append(pat, f.vars()...)
+					return "let '(" + strings.Join(pat, ", ") + ") := " + app + " in\n" + rest(), true
+				}
+			}
+		}
 		if names, ok := a.oracles[s]; ok {
 			ce := s.Rhs[0].(*ast.CallExpr)
 			out := tr.effect(ce)
@@ -752,12 +848,38 @@ func (tr *translator) absDefinition(defName, srcName string, fd *ast.FuncDecl, b
 
 	// variables visible as parameters
 	var vars []absVar
+	var stateParams, stateTys, foreignTys []string
 	body := fd.Body
 	if blk == nil {
 		if sig.Recv() != nil && len(fd.Recv.List[0].Names) > 0 {
 			rt := sig.Recv().Type()
 			st, isStruct := under(rt).(*types.Struct)
-			if !(isStruct && st.NumFields() == 0) {
+			stateDone := false
+			if pt, isp := rt.(*types.Pointer); isp {
+				if nm, isn := pt.Elem().(*types.Named); isn {
+					if fields, has := tr.t.State[nm.Obj().Name()]; has {
+						// a receiver whose state fields are declared in the target is threaded as in the classic mode
+						// (its fields are parameters and trailing results), so that translated methods can call each other
+						tr.recvState, tr.recvName, tr.recvType = fields, fd.Recv.List[0].Names[0].Name, nm.Obj().Name()
+						sst := under(pt.Elem()).(*types.Struct)
+						for _, f := range fields {
+							var ft types.Type
+							for i := 0; i < sst.NumFields(); i++ {
+								if sst.Field(i).Name() == f {
+									ft = sst.Field(i).Type()
+								}
+							}
+							if ft == nil {
+								fail(fd, "state field %s not found", f)
+							}
+							stateParams = append(stateParams, "("+lv(tr.recvName+"_"+f)+" : "+tr.coqType(fd, ft)+")")
+							stateTys = append(stateTys, tr.coqType(fd, ft))
+						}
+						stateDone = true
+					}
+				}
+			}
+			if !stateDone && !(isStruct && st.NumFields() == 0) {
 				vars = append(vars, absVar{fd.Recv.List[0].Names[0].Name, rt, fd.Recv.Pos()})
 			}
 		}
@@ -849,6 +971,56 @@ func (tr *translator) absDefinition(defName, srcName string, fd *ast.FuncDecl, b
 	for _, o := range oracles {
 		if _, isb := a.bases[o.name]; !isb {
 			continue
+		}
+	}
+
+	// protocol objects reached through a field (self.p) on which translated, state-threaded methods are called
+	ast.Inspect(body, func(x ast.Node) bool {
+		ce, ok := x.(*ast.CallExpr)
+		if !ok {
+			return true
+		}
+		_, recvX, threaded, known := tr.calleeName(ce.Fun)
+		if !known || !threaded || recvX == nil {
+			return true
+		}
+		b, p, isPath := tr.absPath(recvX)
+		if !isPath || p == "" {
+			return true
+		}
+		for _, f := range a.foreign {
+			if f.base == b && f.path == p {
+				return true
+			}
+		}
+		rt := tr.typeOf(recvX)
+		if pt, isp := rt.(*types.Pointer); isp {
+			rt = pt.Elem()
+		}
+		nm, isn := rt.(*types.Named)
+		if !isn {
+			return true
+		}
+		fields, has := tr.stateOf(nm.Obj().Pkg().Path(), nm.Obj().Name())
+		if !has {
+			return true
+		}
+		sst := under(rt).(*types.Struct)
+		fo := absForeign{base: b, path: p, fields: fields}
+		for _, fl := range fields {
+			for i := 0; i < sst.NumFields(); i++ {
+				if sst.Field(i).Name() == fl {
+					fo.tys = append(fo.tys, tr.coqType(fd, sst.Field(i).Type()))
+				}
+			}
+		}
+		a.foreign = append(a.foreign, fo)
+		return true
+	})
+	for _, f := range a.foreign {
+		for i, v := range f.vars() {
+			stateParams = append(stateParams, "("+v+" : "+f.tys[i]+")")
+			foreignTys = append(foreignTys, f.tys[i])
 		}
 	}
 
@@ -1058,6 +1230,8 @@ func (tr *translator) absDefinition(defName, srcName string, fd *ast.FuncDecl, b
 		retTys = append(retTys, "list (Z * list Z)")
 		pre += "let eff_ := (@nil (Z * list Z)) in\n"
 	}
+	retTys = append(retTys, stateTys...)
+	retTys = append(retTys, foreignTys...)
 	ret := "unit"
 	if len(retTys) > 0 {
 		ret = strings.Join(retTys, " * ")
@@ -1082,6 +1256,7 @@ func (tr *translator) absDefinition(defName, srcName string, fd *ast.FuncDecl, b
 
 	// assemble: records, effect constants, definition
 	var sb strings.Builder
+	params = append(params, stateParams...)
 	for _, s := range slots {
 		if !s.base {
 			params = append(params, "("+lv(s.name)+" : "+s.ty+")")
@@ -1471,4 +1646,73 @@ func (tr *translator) flowStmts(list []ast.Stmt, d dirtySet) (dirtySet, bool) {
 		}
 	}
 	return d, false
+}
+
+// ---------------------------------------------------------------- condition extraction
+
+const absFloatPrelude = `(* math.IsNaN / math.IsInf on IEEE-754 binary64 bit patterns (floats are represented by their bits) *)
+Definition f64_isnan (b : Z) : bool := (Z.land (Z.shiftr b 52) 2047 =? 2047) && negb (Z.land b 4503599627370495 =? 0).
+Definition f64_isinf (b : Z) (sign : Z) : bool :=
+  (Z.land (Z.shiftr b 52) 2047 =? 2047) && (Z.land b 4503599627370495 =? 0) &&
+  (if sign >? 0 then Z.shiftr b 63 =? 0 else if sign <? 0 then Z.shiftr b 63 =? 1 else true).
+
+`
+
+// absCond: the condition of the `if` whose condition prints as the anchor, as a boolean function of its free variables
+func (tr *translator) absCond(b Block, fd *ast.FuncDecl) (def string, err error) {
+	defer func() {
+		tr.abs = nil
+		if r := recover(); r != nil {
+			if te, ok := r.(trErr); ok {
+				err = fmt.Errorf("%s", te.msg)
+				return
+			}
+			panic(r)
+		}
+	}()
+	var found []*ast.IfStmt
+	ast.Inspect(fd.Body, func(x ast.Node) bool {
+		if is, ok := x.(*ast.IfStmt); ok && srcOf(is.Cond) == b.Anchor {
+			found = append(found, is)
+		}
+		return true
+	})
+	if len(found) != 1 {
+		return "", fmt.Errorf("anchor %q matches %d if-statements in %s", b.Anchor, len(found), b.Func)
+	}
+	cond := found[0].Cond
+	tr.alias = map[string]string{}
+	tr.recvName, tr.recvState, tr.recvType = "", nil, ""
+	tr.results, tr.resultTys = nil, nil
+	tr.pending = ""
+	a := &absCtx{def: b.Name, bases: map[string]*absBase{}, funcs: map[string]bool{}, ptrSlices: map[string]bool{}, scalars: map[string]bool{}}
+	tr.abs = a
+	var vars []absVar
+	seen := map[types.Object]bool{}
+	ast.Inspect(cond, func(x ast.Node) bool {
+		id, ok := x.(*ast.Ident)
+		if !ok {
+			return true
+		}
+		v, ok := tr.pi.info.Uses[id].(*types.Var)
+		if !ok || v.IsField() || v.Parent() == tr.pi.pkg.Scope() || v.Pkg() != tr.pi.pkg || seen[v] {
+			return true
+		}
+		seen[v] = true
+		vars = append(vars, absVar{id.Name, v.Type(), v.Pos()})
+		return true
+	})
+	sort.Slice(vars, func(i, j int) bool { return vars[i].pos < vars[j].pos })
+	var params []string
+	for _, v := range vars {
+		ty, ok := tr.tryCoqType(v.typ)
+		if !ok {
+			fail(cond, "free variable %s of the condition has an untranslatable type", v.name)
+		}
+		params = append(params, "("+lv(v.name)+" : "+ty+")")
+	}
+	body := tr.expr(cond)
+	pos := fset.Position(cond.Pos())
+	return fmt.Sprintf("(* %s:%d  condition of %s: if %s *)\nDefinition %s %s : bool :=\n%s.\n", pos.Filename, pos.Line, b.Func, cm(b.Anchor), b.Name,
+		strings.Join(params, " "), body), nil
 }
